@@ -50,7 +50,6 @@ from ..utils import (
     arg_value_error,
     arg_value_error_msg,
     arg_value_error_range,
-    cached,
     get_cell_size,
     get_fg_bg_colors,
     get_terminal_name_version,
@@ -1973,8 +1972,9 @@ class TextImage(BaseImage):
     # pixel-ratio == width / (height/2) == 2 * (width / height) == 2 * cell-ratio
     _pixel_ratio = property(lambda _: get_cell_ratio() * 2)
 
+    # Not cached (again); the name and version is and that is discarded whenever it might
+    # have changed (e.g. when queries are re-enabled)
     @staticmethod
-    @cached
     def _is_on_kitty() -> bool:
         return get_terminal_name_version()[0] == "kitty"
 
